@@ -1,20 +1,20 @@
 (* C08 on the tables of the compiled crate (debug profile: overflow checks and debug assertions on;
    a panic caught by catch_unwind is the table entry Panic).  Self-contained, like Props/C08.v. *)
 From Coq Require Import NArith Bool List String.
-From PK Require Import Base.Outcome Base.Finite Base.Machine Gen.Types Impl Spec.Frame Spec.Mods
+From PK Require Import Base.Outcome Base.Finite Base.Machine Base.Reach Gen.Types Impl Spec.Frame Spec.Mods
   Ext.Ps2 ExtI.Ps2 Ext.Set1 Ext.Set2 ExtI.Scan Ext.Lay ExtI.Lay Ext.Event ExtI.Ev Check.Scan Check.Ps2M Check.C07 Check.Lay Check.EvImpl Check.C08.
 Import ListNotations.
 Local Open Scope N_scope.
 
-Lemma inv1 : inv_C07 ext_set1 0 = true. Proof. vm_compute. reflexivity. Qed.
-Lemma inv2 : inv_C07 ext_set2 0 = true. Proof. vm_compute. reflexivity. Qed.
+Lemma inv1 : inv_C07 ext_set1 (fun s : N => s) 0 = true. Proof. vm_compute. reflexivity. Qed.
+Lemma inv2 : inv_C07 ext_set2 (fun s : N => s) 0 = true. Proof. vm_compute. reflexivity. Qed.
 Theorem C08_set1_ext : forall bs, Forall byte bs -> exists s' os, run (scan_machine ext_set1) 0 bs = Ret (s', os).
-Proof. exact (C08_scancodes ext_set1 _ _ inv1). Qed.
+Proof. exact (C08_scancodes ext_set1 _ _ _ inv1). Qed.
 Theorem C08_set2_ext : forall bs, Forall byte bs -> exists s' os, run (scan_machine ext_set2) 0 bs = Ret (s', os).
-Proof. exact (C08_scancodes ext_set2 _ _ inv2). Qed.
-Lemma inv_bits : inv_ps2 ext_ps2 0 = true. Proof. vm_compute. reflexivity. Qed.
+Proof. exact (C08_scancodes ext_set2 _ _ _ inv2). Qed.
+Lemma inv_bits : inv_ps2 ext_ps2 (fun s : N => s) 0 = true. Proof. vm_compute. reflexivity. Qed.
 Theorem C08_bits_ext : forall ops : list bit_op, exists s' os, run (ps2_machine ext_ps2) 0 ops = Ret (s', os).
-Proof. exact (C08_bitops ext_ps2 _ inv_bits). Qed.
+Proof. exact (C08_bitops ext_ps2 _ _ inv_bits). Qed.
 Lemma words_ok : panicking_words ext_ps2 0 = []. Proof. vm_compute. reflexivity. Qed.
 Theorem C08_word_ext : forall s w, w < 65536 -> ps_add_word ext_ps2 s w <> Panic.
 Proof. exact (C08_words ext_ps2 0 (fun s w => eq_refl) words_ok). Qed.
